@@ -51,8 +51,12 @@ def _work(item):
         for graph in (False, True):
             args = [relayout(a, layout, rng) for a in c.arrays]
             inplace_target = c.family == "update_at" and not graph
-            if inplace_target and not args[0].flags.writeable:
+            readonly_target = inplace_target and not args[0].flags.writeable
+            if readonly_target and rng.random() < 0.5:
                 args[0] = np.array(args[0])
+                readonly_target = False
+            # (otherwise the target stays read-only: the call may refuse it or - np.add.at ignores the flag - update its contents, the
+            # documented exception; its shape, dtype, strides and FLAGS are the caller's all the same)
             kw = dict(c.size_kwargs())
             extra = copy.deepcopy(c.extra_kwargs)
             snaps = [snapshot(a) for a in args]
@@ -66,7 +70,7 @@ def _work(item):
                 err = None
             except BaseException as e:  # noqa: BLE001
                 err = (common.classify_exc(e), common.exc_site(e), str(e)[:200])
-            if err is not None and err[0] not in ("OperationNotSupportedError",) and c.family != "elementwise_arity":
+            if err is not None and err[0] not in ("OperationNotSupportedError",) and c.family != "elementwise_arity" and not readonly_target:
                 # a failure caused by a read-only / non-contiguous argument is a violation; others belong to C01/C03
                 base = implrun.run_call(c, b, graph=graph)
                 if base[0] != "exc":
@@ -74,6 +78,10 @@ def _work(item):
                                 {"call": c.record(), "message": err[2], "site": err[1]}))
             for i, (a, s) in enumerate(zip(args, snaps)):
                 if i == 0 and inplace_target:
+                    if snapshot(a)[2:] != s[2:]:
+                        out.append(({"kind": "argument_modified", "arg": 0, "what": "shape_dtype_or_flags_of_the_update_target", "layout": layout, "backend": b,
+                                     "family": c.family, "op": c.op, "graph": graph},
+                                    {"call": c.record(), "before": str(s[2:])[:300], "after": str(snapshot(a)[2:])[:300]}))
                     continue
                 if snapshot(a) != s:
                     out.append(({"kind": "argument_modified", "arg": i, "layout": layout, "backend": b, "family": c.family, "op": c.op, "graph": graph},
